@@ -69,8 +69,9 @@ _MOD = None
 _TIMEOUT = 300
 
 
-class CaseTimeout(Exception):
-    pass
+class CaseTimeout(BaseException):
+    """raised by the per-case alarm; a BaseException so that `except Exception` in a property module
+    or in the library cannot swallow it"""
 
 
 def _alarm(signum, frame):
@@ -123,6 +124,23 @@ def _classify_exception(e):
             in_repo = True
             fn = last_own
     return in_repo, fn, (inner.name if inner else "?")
+
+
+def _warm_imports():
+    """import the library completely in the parent, before workers are forked: workers then never
+    perform a first import under the per-case alarm (an alarm firing inside an import leaves
+    half-initialised modules behind and produces bogus crashes)"""
+    import warnings
+
+    with warnings.catch_warnings():
+        warnings.simplefilter("ignore")
+        for m in ("numpy", "scipy.sparse", "scipy.sparse.linalg", "scipy.optimize", "scipy.integrate", "cardillo", "cardillo.solver",
+                  "cardillo.discrete", "cardillo.constraints", "cardillo.contacts", "cardillo.forces", "cardillo.force_laws",
+                  "cardillo.interactions", "cardillo.actuators", "cardillo.rods", "cardillo.math", "cardillo.visualization"):
+            try:
+                importlib.import_module(m)
+            except Exception:
+                pass
 
 
 def _run_case(arg):
@@ -290,6 +308,7 @@ def main(argv=None):
         seed = 0
     modname = f"vp.props.{pid.lower()}"
     t_start = time.time()
+    _warm_imports()
     mod = importlib.import_module(modname)
     findings = load_findings(pid)
     timeout = getattr(mod, "CASE_TIMEOUT", 300)
@@ -297,7 +316,22 @@ def main(argv=None):
     if args.replay:
         return replay(mod, modname, pid, args.replay, findings, timeout)
 
-    cases = list(mod.cases(tier, seed))
+    try:
+        cases = list(mod.cases(tier, seed))
+    except Exception as e:  # noqa
+        in_repo, fn, func = _classify_exception(e)
+        tbs = traceback.format_exc()
+        if in_repo:
+            # the library crashed while the case list was being built (dry runs, probing of sizes)
+            rdir = os.path.join(os.environ.get("VERIF_REPLAY_DIR") or os.path.join(ROOT, "replays"), pid)
+            os.makedirs(rdir, exist_ok=True)
+            path = os.path.join(rdir, "enumeration_crash.json")
+            with open(path, "w") as fh:
+                json.dump({"property": pid, "case": {"kind": "enumeration"}, "fail": {"site": f"crash:{os.path.relpath(fn, REPO)}:{func}:{type(e).__name__}", "msg": str(e), "data": {"traceback": tbs[-1500:]}}}, fh, indent=1)
+            _out(f"VIOLATION property={pid} replay={path}  site=crash while enumerating cases:{os.path.relpath(fn, REPO)}:{func}:{type(e).__name__} :: {e}")
+            return 1
+        _out(f"BROKEN property={pid}: harness error while enumerating cases\n{tbs}")
+        return 2
     capped = False
     if args.limit and len(cases) > args.limit:
         cases = cases[: args.limit]
